@@ -522,7 +522,7 @@ def convert_probes(ctx: Ctx):
 
 def run(ctx: Ctx):
     eng = morph.Engine(ctx)
-    specs = eng.gen_specs(ctx.budget(200, 3000), 3 if ctx.tier == "quick" else 4, stateful=True, iter_matrix=True)
+    specs = eng.gen_specs(ctx.budget(200, 3000), 3 if ctx.tier == "quick" else 4, stateful=True, iter_matrix=True, generic_models=True)
     run_load_cases(ctx, eng, specs)
     default_probes(ctx)
     extra_probes(ctx)
@@ -534,7 +534,7 @@ def run(ctx: Ctx):
 def search(ctx: Ctx):
     eng = morph.Engine(ctx)
     eng.drv = None
-    run_load_cases(ctx, eng, eng.gen_specs(2500, 4, stateful=True, iter_matrix=True))
+    run_load_cases(ctx, eng, eng.gen_specs(2500, 4, stateful=True, iter_matrix=True, generic_models=True))
     default_probes(ctx)
     extra_probes(ctx)
     extra_layout_suite(ctx, 1500)
